@@ -112,10 +112,19 @@ def hasPrefix (x pre : String) : Bool := pre.toList.isPrefixOf x.toList
 
 def dropS (x : String) (n : Nat) : String := String.ofList (x.toList.drop n)
 
-/-- the type a `cache:<Type>.<method>` summary belongs to. -/
+/-- the type whose methods a summary's receiver calls resolve to. Closures defined inside a constructor
+    (`cacheFunctions` fields, OnChange listeners) are named after their FILE by the extractor; the variable
+    they capture (`c`, `j`) is the object under construction. The file -> type table is checked against the
+    extracted `closureOwners` facts by Props/C14.closure_owners_as_assumed. -/
+def closureOwner (fileBase : String) : String :=
+  if fileBase = "file_cache" then "FileCache"
+  else if fileBase = "memory_cache" then "MemoryCache"
+  else if fileBase = "cache_janitor" then "cacheJanitor"
+  else fileBase
+
 def ownerOf (caller : String) : String :=
   match splitS ':' caller with
-  | [pkg, rest] => pkg ++ ":" ++ ((splitS '.' rest).headD "")
+  | [pkg, rest] => pkg ++ ":" ++ closureOwner ((splitS '.' rest).headD "")
   | _ => caller
 
 def lockMethod (m : String) : Bool :=
